@@ -263,8 +263,11 @@ static void gen(plan_t *p, rng_t *r)
                 if (!rng_chance(r, 1, 8)) { n = gen_text(r, buf, sizeof(buf), 0); op_str(o, buf, n); }
             }
         } else if (k < 62) {
-            o = plan_op(p, 0, "sprintf", 3, (long)s, (long)rng_below(r, 6), (long)(int)rng_u64(r));
-            n = rng_chance(r, 1, 6) ? gen_text(r, buf, 15000, rng_range(r, 1, 2)) : gen_text(r, buf, 60, 0);       /* one in six formats several kilobytes */
+            int pow2 = rng_chance(r, 1, 8);         /* one in eight: a result whose length is a power of two, or one or two off it (a scratch buffer of any such size, filled exactly) */
+            o = plan_op(p, 0, "sprintf", 3, (long)s, pow2 && rng_chance(r, 2, 3) ? 0L : (long)rng_below(r, 6), (long)(int)rng_u64(r));
+            size_t want = pow2 ? (size_t)((1 << rng_range(r, 4, 13)) + rng_range(r, -2, 1)) : 0;
+            n = pow2 ? gen_text(r, buf, want, 2) : rng_chance(r, 1, 6) ? gen_text(r, buf, 15000, rng_range(r, 1, 2)) : gen_text(r, buf, 60, 0);       /* one in six formats several kilobytes */
+            while (n < want) buf[n++] = 'a';
             for (size_t j = 0; j < n; j++) if (buf[j] == '%') buf[j] = 'p';
             op_str(o, buf, n);
             glen[s] = n + 4;
